@@ -117,6 +117,7 @@ J run_plan(const J &plan, int verbose, const char *trace_path)
 	w->S.verbose = verbose;
 	if (trace_path) w->S.trace = fopen(trace_path, "w");
 	if (plan.has("residue_override")) w->S.residue_mode = (int)plan.geti("residue_override");
+	if (plan.has("residue_override")) w->S.poison_tails = true;      // second run of a pair only: the first keeps whatever earlier replies/commands left in the decode buffers
 	if (plan.has("decoy_override")) w->S.decoy_variant = (int)plan.geti("decoy_override");
 	w->run();
 	J r = w->result();
